@@ -750,13 +750,17 @@ def fit_cases(ctx, cases):
             Xbase = np.array([[float(v) for v in row] for row in X], dtype=xdt)
         Xa = as_form(Xbase, xcont, r)
         tgl = []
+        glays = set()
         for g, gd in zip(grids, gdts):
             if gd == "pylist":
+                glays.add("asis")
                 tgl.append([int(v) if intmode else float(v) for v in g])
             else:
                 ga = np.array([int(v) if (intmode and not gd.startswith("float")) else float(v) for v in g], dtype=gd)
                 # layouts and dtypes are mixed freely across the grids (regression guard for fit_mixed_layout_grids)
-                tgl.append(as_form(ga, r.choice([glayout, "asis"]) if glayout != "asis" else r.choice(["asis", "asis", "asis", "view-rows", "neg-stride"]), r))
+                lay = r.choice([glayout, "asis"]) if glayout != "asis" else r.choice(["asis", "asis", "asis", "view-rows", "neg-stride"])
+                glays.add(lay if len(g) >= 2 else "asis")
+                tgl.append(as_form(ga, lay, r))
         tg = tuple(tgl) if gcont == "tuple" else tgl
         form = "X:%s/%s grids:%s/%s/%s" % (xdt, xcont, "+".join(sorted(set(gdts))), glayout, gcont)
         ctx.count("fit-form:X=" + xdt)
@@ -764,6 +768,10 @@ def fit_cases(ctx, cases):
         for gd in gdts:
             ctx.count("fit-form:grid=" + gd)
         ctx.count("fit-form:grids=%s/%s" % (glayout, gcont))
+        if len(glays) > 1:
+            ctx.count("fit-form:grids-mixed-layouts")
+        if len(set(gdts)) > 1:
+            ctx.count("fit-form:grids-mixed-dtypes")
         rp = {"op": "fit_discrete_mc", "X": [[str(v) for v in row] for row in X],
               "grids": [[str(v) for v in g] for g in grids], "order": order, "form": form}
         # exact oracle: nearest product index per observation (ties: any nearest point is acceptable,
@@ -775,7 +783,8 @@ def fit_cases(ctx, cases):
         try:
             idx_code = [int(k) for k in np.atleast_1d(gt.cartesian_nearest_index(Xa, tg, order=order))]
         except Exception as e:          # a legal argument form that the library rejects
-            ctx.spec_fail("fit_nearest_raises", "cartesian_nearest_index: %s: %s" % (type(e).__name__, str(e)[:200]), rp)
+            ctx.spec_fail("fit_mixed_layout_grids" if type(e).__name__ == "TypingError" else "fit_nearest_raises",
+                          "cartesian_nearest_index: %s: %s" % (type(e).__name__, str(e)[:200]), rp)
             continue
         ok = True
         for t in range(T):
